@@ -57,30 +57,39 @@ type profile struct {
 
 func acceptUnits(c *checkCtx, check string) []*interp.Unit {
 	cli := groups["cli"]
-	specs := append(evalList(c, "vFamilyCurated"), evalList(c, "vFamilyEnd")...)
+	base := append(evalList(c, "vFamilyCurated"), evalList(c, "vFamilyEnd")...)
 	gen := evalList(c, "vFamilyGenerated")
-	var profs []profile
+	type plan struct {
+		specs []string
+		prof  profile
+	}
+	var plans []plan
 	if c.quick() {
-		specs = append(specs, everyNth(gen, 48, c.seed)...)
-		profs = []profile{
-			{"raw K<=2 L<=3", map[string]interface{}{"profile": "raw", "K": 2, "L": 3}},
-			{"tmpl K<=2 Lp<=1", map[string]interface{}{"profile": "tmpl", "K": 2, "Lp": 1}},
+		specs := append(append([]string{}, base...), everyNth(gen, 48, c.seed)...)
+		plans = []plan{
+			{specs, profile{"raw K<=2 L<=3", map[string]interface{}{"profile": "raw", "K": 2, "L": 3}}},
+			{specs, profile{"tmpl K<=2 Lp<=1", map[string]interface{}{"profile": "tmpl", "K": 2, "Lp": 1}}},
 		}
 	} else {
-		specs = append(specs, gen...)
-		profs = []profile{
-			{"raw K<=2 L<=4", map[string]interface{}{"profile": "raw", "K": 2, "L": 4}},
-			{"tmpl K<=3 Lp<=1", map[string]interface{}{"profile": "tmpl", "K": 3, "Lp": 1}},
+		half := append(append([]string{}, base...), everyNth(gen, 2, c.seed)...)
+		eighth := append(append([]string{}, base...), everyNth(gen, 8, c.seed)...)
+		core := []string{"[-a] X", "[OPTIONS] X Y", "(-o X)...", "X... Y", "[-ab | -o] X", "-a [-b] X [Y]", "[-ab] [-o] X", "[-a] -- X...", "-o -- X...", "(-a | -b | -o)..."}
+		plans = []plan{
+			{half, profile{"raw K<=2 L<=4", map[string]interface{}{"profile": "raw", "K": 2, "L": 4}}},
+			{eighth, profile{"raw K<=3 L<=3", map[string]interface{}{"profile": "raw", "K": 3, "L": 3}}},
+			{eighth, profile{"tmpl K<=2 Lp<=2", map[string]interface{}{"profile": "tmpl", "K": 2, "Lp": 2}}},
+			{base, profile{"core template K<=4 Lp<=1", map[string]interface{}{"profile": "tmplmini", "K": 4, "Lp": 1}}},
+			{core, profile{"tmpl K<=3 Lp<=1", map[string]interface{}{"profile": "tmpl", "K": 3, "Lp": 1}}},
 		}
 	}
 	var us []*interp.Unit
-	for _, sp := range specs {
-		for _, pr := range profs {
+	for _, pl := range plans {
+		for _, sp := range pl.specs {
 			ps := map[string]interface{}{"spec": sp, "check": check, "shared": 0}
-			for k, v := range pr.params {
+			for k, v := range pl.prof.params {
 				ps[k] = v
 			}
-			u := unit(cli, "H_accept", fmt.Sprintf("H_accept[%q %s]", sp, pr.name), ps)
+			u := unit(cli, "H_accept", fmt.Sprintf("H_accept[%q %s]", sp, pl.prof.name), ps)
 			u.Samples = 1
 			us = append(us, u)
 		}
@@ -137,7 +146,7 @@ func init() {
 			if c.quick() {
 				return map[string]interface{}{"specs": "curated + END family + every 48th generated spec (rotated by VERIF_SEED)", "raw": "K<=2 tokens of L<=3 arbitrary bytes", "template": "K<=2 items over 24 documented/malformed shapes, payload <=1 byte", "structural (H_struct)": "every sequence of <=4 spec tokens over 16 kinds that compiles: language equivalence of the compiled graph and the Glushkov automaton of the reference regular expression, proved by k-induction in z3 for label sequences of any length"}
 			}
-			return map[string]interface{}{"specs": "curated + END family + all generated specs", "raw": "K<=2 tokens of L<=4 arbitrary bytes", "template": "K<=3 items over 24 documented/malformed shapes, payload <=1 byte", "structural (H_struct)": "every sequence of <=5 spec tokens over 16 kinds that compiles: language equivalence by k-induction, label sequences of any length"}
+			return map[string]interface{}{"specs": "curated (86) + END family (19); every 2nd of the 1476 generated specs for raw K<=2, every 8th for raw K<=3 and the template", "raw": "K<=2 tokens of L<=4 arbitrary bytes; K<=3 tokens of L<=3 bytes", "template": "K<=2 items over 24 documented/malformed shapes with payload <=2 bytes; K<=3 items (payload 1 byte) on 10 core specs; K<=4 items over the 5 well-formed core shapes on curated + END specs", "structural (H_struct)": "every sequence of <=5 spec tokens over 16 kinds that compiles: language equivalence by k-induction, label sequences of any length"}
 		},
 		Assumptions: append([]string{"declaration table: flags -a/--aa -b/--bb, valued -o/--oo -e/--ee (string lists), arguments X Y; no environment variables", "no token equals -h/--help (C14); no folded token with '=' after a flag; inputs of DESIGN.md 4.5 (iv) excluded for specs containing `--`", "flag values written as -a=v convert through strconv.ParseBool modelled as an uninterpreted function shared by implementation and reference"}, commonAssumptions...),
 		Outside:     []string{"command lines longer than K tokens / L bytes", "specs outside the family", "other declaration tables"},
